@@ -34,7 +34,10 @@ import (
 
 type DlScript struct {
 	Name string `json:"name"`
-	Mode string `json:"mode"` // sleep | block | trapexit | ignore | exitat | exitabs | builtin | lateignore | bgignore
+	Mode string `json:"mode"` // sleep | block | trapexit | trapexit<status> | ignore | exitat | exitabs | builtin | lateignore | bgignore
+	// trapexit: on the interrupt the command exits with status 3 after Ms; trapexit0 (trapexit1, ...): the
+	// same with that exit status -- a command that shuts down gracefully on the interrupt and reports
+	// success was still blocked until the context expired
 	// lateignore (job with ContinueOnError): two foreground commands that ignore the interrupt, one
 	// after the other: the second one starts after the first has been killed, i.e. inside the last
 	// grace period before the deadline, and has to be killed one grace period after it was interrupted
@@ -48,7 +51,21 @@ type DlScript struct {
 	Neg   bool `json:"neg,omitempty"`
 }
 
+// DlCall is one RunT call of a history of calls made by one process before the call that is
+// measured: only scripts that finish quickly (builtin, exitat with a small Ms).  UntilMs 0: no
+// Params.Deadline at all.
+type DlCall struct {
+	UntilMs         int        `json:"until_ms"`
+	Scripts         []DlScript `json:"scripts"`
+	SeqT            bool       `json:"seq_t,omitempty"`
+	ContinueOnError bool       `json:"continue_on_error,omitempty"`
+}
+
 type DeadlineJob struct {
+	// Prior: RunT calls the same process makes, one after the other, before the call described by the
+	// other fields ("Scripts that finish earlier are unaffected by the deadline", whatever the process
+	// did before)
+	Prior           []DlCall   `json:"prior,omitempty"`
 	UntilMs         int        `json:"until_ms"`
 	Scripts         []DlScript `json:"scripts"`
 	Par             int        `json:"par,omitempty"`
@@ -86,20 +103,39 @@ func (s *DlScript) text(obsDir string, ctxExpiry time.Time) string {
 
 func runDeadlineChild(job *Job) {
 	dl := job.Deadline
+	if dl.IgnoreQuit {
+		signal.Ignore(syscall.SIGQUIT)
+	}
+	var prior []*ChildResult
+	for k, pc := range dl.Prior {
+		prior = append(prior, runDeadlineCall(job, fmt.Sprintf("p%d", k), pc.UntilMs, pc.Scripts, pc.SeqT, pc.ContinueOnError))
+	}
+	res := runDeadlineCall(job, "m", dl.UntilMs, dl.Scripts, dl.SeqT, dl.ContinueOnError)
+	res.Prior = prior
+	out, _ := json.Marshal(res)
+	if err := os.WriteFile(job.Out, out, 0o666); err != nil {
+		fmt.Fprintln(os.Stderr, "child:", err)
+		os.Exit(3)
+	}
+}
+
+// runDeadlineCall: one RunT call with Params.Deadline untilMs away (0: none) and everything it saw.
+func runDeadlineCall(job *Job, tag string, untilMs int, scripts []DlScript, seqT, coe bool) *ChildResult {
+	dl := job.Deadline
 	res := &ChildResult{Uid: os.Getuid()}
 	obsDir := filepath.Join(job.Dir, "obs")
 	var files []string
 	t0 := time.Now()
-	deadline := t0.Add(time.Duration(dl.UntilMs) * time.Millisecond)
-	until := time.Duration(dl.UntilMs) * time.Millisecond
+	until := time.Duration(untilMs) * time.Millisecond
+	deadline := t0.Add(until)
 	grace := until / 20
 	if grace < 100*time.Millisecond {
 		grace = 100 * time.Millisecond
 	}
 	ctxExpiry := deadline.Add(-2 * grace)
-	for i := range dl.Scripts {
-		s := &dl.Scripts[i]
-		dir := filepath.Join(job.Dir, "scripts", strconv.Itoa(i))
+	for i := range scripts {
+		s := &scripts[i]
+		dir := filepath.Join(job.Dir, "scripts", tag+"-"+strconv.Itoa(i))
 		os.MkdirAll(dir, 0o777)
 		f := filepath.Join(dir, s.Name+".txt")
 		os.WriteFile(f, []byte(s.text(obsDir, ctxExpiry)), 0o666)
@@ -109,12 +145,12 @@ func runDeadlineChild(job *Job) {
 	if par <= 0 {
 		par = 8
 	}
-	root := &rootT{release: make(chan struct{}), sem: make(chan struct{}, par), seq: dl.SeqT}
-	if dl.IgnoreQuit {
-		signal.Ignore(syscall.SIGQUIT)
-	}
+	root := &rootT{release: make(chan struct{}), sem: make(chan struct{}, par), seq: seqT}
 	res.T0 = t0.UnixNano()
-	p := testscript.Params{Files: files, Deadline: deadline, ContinueOnError: dl.ContinueOnError}
+	p := testscript.Params{Files: files, ContinueOnError: coe}
+	if untilMs > 0 {
+		p.Deadline = deadline
+	}
 	ran := make(chan struct{})
 	go func() {
 		defer close(ran)
@@ -135,11 +171,7 @@ func runDeadlineChild(job *Job) {
 		o.Verdict = s.verdict()
 		res.Scripts = append(res.Scripts, o)
 	}
-	out, _ := json.Marshal(res)
-	if err := os.WriteFile(job.Out, out, 0o666); err != nil {
-		fmt.Fprintln(os.Stderr, "child:", err)
-		os.Exit(3)
-	}
+	return res
 }
 
 var reStart = regexp.MustCompile(`(?m)^start (\d+) (\d+)$`)
@@ -208,11 +240,118 @@ func (rn *runner) evalDeadline(dl *DeadlineJob) ([]dlFinding, map[string]int) {
 		add("correspondence", "child-crashed", fmt.Sprintf("the child produced no result (exit %d): %s", ro.exitCode, tail(ro.output, 1200)), "", "")
 		return fs, counts
 	}
-	if ro.res.RootFatal != "" {
-		add("correspondence", "child-error", ro.res.RootFatal, "", "")
+	if len(ro.res.Prior) != len(dl.Prior) {
+		add("correspondence", "child-error", fmt.Sprintf("%d earlier RunT calls asked for, %d reported", len(dl.Prior), len(ro.res.Prior)), "", "")
 		return fs, counts
 	}
-	until := int64(dl.UntilMs) * msNs
+	if len(ro.alive) > 0 {
+		add("impl-violation", "deadline/child-left", "child processes alive after RunT returned: "+strings.Join(ro.alive, ","), "", "")
+	}
+	// the history of deadlines, for the messages
+	var hist []string
+	for _, pc := range dl.Prior {
+		hist = append(hist, untilString(pc.UntilMs))
+	}
+	hist = append(hist, untilString(dl.UntilMs))
+	for k, pc := range dl.Prior {
+		where := ""
+		if len(dl.Prior) > 0 {
+			where = fmt.Sprintf("RunT call %d of %d made by one process (deadlines %s): ", k+1, len(hist), strings.Join(hist, ", then "))
+		}
+		counts["history:earlier-call"]++
+		rn.evalCall(dl, pc.UntilMs, pc.Scripts, ro.res.Prior[k], ro, where, add, counts)
+	}
+	where := ""
+	if len(dl.Prior) > 0 {
+		where = fmt.Sprintf("RunT call %d of %d made by one process (deadlines %s): ", len(hist), len(hist), strings.Join(hist, ", then "))
+		counts[fmt.Sprintf("history:%d-calls", len(hist))]++
+	}
+	rn.evalCall(dl, dl.UntilMs, dl.Scripts, ro.res, ro, where, add, counts)
+	// the model of the whole history (TsRuns.v, for the source as it is): every call computes what a
+	// fresh process would
+	if len(dl.Prior) > 0 {
+		type hc struct {
+			now   int64
+			until int
+		}
+		var calls []hc
+		t00 := ro.res.Prior[0].T0
+		for k, pc := range dl.Prior {
+			calls = append(calls, hc{ro.res.Prior[k].T0 - t00, pc.UntilMs})
+		}
+		calls = append(calls, hc{ro.res.T0 - t00, dl.UntilMs})
+		req := fmt.Sprintf("history %d", len(calls))
+		var want []string
+		for _, c := range calls {
+			if c.until == 0 {
+				req += fmt.Sprintf(" %d 0 -", c.now)
+				want = append(want, "grace=100000000 ctx=-")
+				continue
+			}
+			until := int64(c.until) * msNs
+			grace := until / 20
+			if grace < 100*msNs {
+				grace = 100 * msNs
+			}
+			req += fmt.Sprintf(" %d 0 %d", c.now, c.now+until)
+			want = append(want, fmt.Sprintf("grace=%d ctx=%d", grace, c.now+until-2*grace))
+		}
+		if ans := rn.ask(req); ans != strings.Join(want, " | ") {
+			add("correspondence", "model/history", "the model of the calls as the source makes them (run_calls_now; the generated constant says whether the grace period is a local of RunT) differs from what a fresh process computes for each call", ans, strings.Join(want, " | "))
+		}
+	}
+	return fs, counts
+}
+
+func untilString(ms int) string {
+	switch {
+	case ms == 0:
+		return "none"
+	case ms%60000 == 0:
+		return fmt.Sprintf("%d min", ms/60000)
+	}
+	return fmt.Sprintf("%d ms", ms)
+}
+
+// isTrap: the command handles the interrupt and exits (with which status is in the mode's name).
+func isTrap(mode string) bool { return strings.HasPrefix(mode, "trapexit") }
+
+// evalCall applies the oracles to one RunT call.
+func (rn *runner) evalCall(dl *DeadlineJob, untilMs int, scripts []DlScript, cr *ChildResult, ro *runObs, where string,
+	add func(kind, oracle, detail, model, impl string), counts map[string]int) {
+	if cr.RootFatal != "" {
+		add("correspondence", "child-error", where+cr.RootFatal, "", "")
+		return
+	}
+	msgB, _ := hex.DecodeString(rn.msgHex())
+	byName := map[string]*ScriptObs{}
+	for _, o := range cr.Scripts {
+		byName[o.Name] = o
+	}
+	if untilMs == 0 {
+		// no deadline at all: nothing is ever interrupted, every (quick) script has its own verdict
+		for i := range scripts {
+			s := &scripts[i]
+			o := byName[s.Name]
+			if o == nil {
+				add("correspondence", "child-error", where+"no observation for "+s.Name, "", "")
+				continue
+			}
+			counts["class:no-deadline"]++
+			counts["mode:"+s.Mode]++
+			hl := helperLog(ro.dir, s.Name, cr.T0)
+			want := "PASS"
+			if s.Neg {
+				want = "FAIL"
+			}
+			_, sig := hl["quit"]
+			if o.Verdict != want || sig || (len(msgB) > 0 && strings.Contains(o.Log, string(msgB))) {
+				add("impl-violation", "deadline/early-affected", fmt.Sprintf("%sscript %s of a RunT call without any deadline was reported %s (interrupted: %v)", where, s.Name, o.Verdict, sig), want, o.Verdict+": "+tail(o.Log, 300))
+			}
+		}
+		return
+	}
+	until := int64(untilMs) * msNs
 	grace := until / 20
 	if grace < 100*msNs {
 		grace = 100 * msNs
@@ -224,45 +363,42 @@ func (rn *runner) evalDeadline(dl *DeadlineJob) ([]dlFinding, map[string]int) {
 	earlyTol := 40 * msNs
 	lateTol := grace * 6 / 10
 	// RunT and all subtests finish by the deadline (+ slack)
-	if ro.res.RunTNs > until+1500*msNs {
-		add("impl-violation", "deadline/finish", fmt.Sprintf("deadline %d ms away, RunT and its subtests finished after %d ms", dl.UntilMs, ro.res.RunTNs/msNs), "", "")
+	if cr.RunTNs > until+1500*msNs {
+		add("impl-violation", "deadline/finish", fmt.Sprintf("%sdeadline %d ms away, RunT and its subtests finished after %d ms", where, untilMs, cr.RunTNs/msNs), "", "")
 	}
-	if len(ro.alive) > 0 {
-		add("impl-violation", "deadline/child-left", "child processes alive after RunT returned: "+strings.Join(ro.alive, ","), "", "")
-	}
-	byName := map[string]*ScriptObs{}
-	for _, o := range ro.res.Scripts {
-		byName[o.Name] = o
-	}
-	msgHex := ""
-	for i := range dl.Scripts {
-		s := &dl.Scripts[i]
+	for i := range scripts {
+		s := &scripts[i]
 		o := byName[s.Name]
 		if o == nil {
-			add("correspondence", "child-error", "no observation for "+s.Name, "", "")
+			add("correspondence", "child-error", where+"no observation for "+s.Name, "", "")
 			continue
 		}
-		hl := helperLog(ro.dir, s.Name, ro.res.T0)
+		hl := helperLog(ro.dir, s.Name, cr.T0)
 		start := hl["start"]
 		if s.Mode == "sleep" || s.Mode == "builtin" {
 			start = o.StartNs
 		}
 		// ---- the model's windows for this process
 		e, in := "-", "-"
-		waitok := "1"
-		switch s.Mode {
-		case "sleep", "block":
+		waitok := "1" // the exit status the command has when it is left alone / exits on the interrupt
+		switch {
+		case s.Mode == "sleep" || s.Mode == "block":
 			in = "0"
-		case "trapexit":
+			waitok = "0" // ended by the signal
+		case isTrap(s.Mode):
 			in = strconv.FormatInt(int64(s.Ms)*msNs, 10)
-		case "ignore":
-		case "exitat":
+			if s.Mode != "trapexit0" {
+				waitok = "0"
+			}
+		case s.Mode == "ignore":
+			waitok = "0" // killed
+		case s.Mode == "exitat":
 			e = strconv.FormatInt(start+int64(s.Ms)*msNs, 10)
 			in = "0"
-		case "exitabs":
+		case s.Mode == "exitabs":
 			e = strconv.FormatInt(ctxAt+int64(s.OffUs)*1000, 10)
 			in = "0"
-		case "builtin":
+		case s.Mode == "builtin":
 			e = strconv.FormatInt(start, 10)
 			in = "0"
 		}
@@ -286,13 +422,15 @@ func (rn *runner) evalDeadline(dl *DeadlineJob) ([]dlFinding, map[string]int) {
 				mf[k] = x
 			}
 		}
-		msgHex = mf["msg"][0]
-		msg, _ := hex.DecodeString(msgHex)
+		msg, _ := hex.DecodeString(mf["msg"][0])
 		if g, _ := strconv.ParseInt(mf["grace"][0], 10, 64); g != grace {
 			add("correspondence", "model/grace", "grace period of the model differs from max(100ms, until/20)", mf["grace"][0], fmt.Sprint(grace))
 		}
 		if mf["trace"][0] != "1" || mf["trace"][1] != "1" {
 			add("correspondence", "model/trace", "the model's timed run is not accepted by its own interleaving system", ans, "")
+		}
+		if mf["srcverdict"] != mf["verdict"] {
+			add("correspondence", "model/source-attribution", fmt.Sprintf("%sscript %s (%s): with the attribution rule read from the source (does the helper goroutine's value win whatever cmd.Wait returned?) the model reports something else than with the intended rule", where, s.Name, s.Mode), fmt.Sprint(mf["verdict"]), fmt.Sprint(mf["srcverdict"]))
 		}
 		timedOut := o.Verdict == "FAIL" && len(msg) > 0 && strings.Contains(o.Log, string(msg))
 		end := o.EndNs
@@ -300,16 +438,16 @@ func (rn *runner) evalDeadline(dl *DeadlineJob) ([]dlFinding, map[string]int) {
 		counts["verdict:"+o.Verdict]++
 		blocked := false
 		early := false
-		switch s.Mode {
-		case "sleep", "block", "trapexit", "ignore":
+		switch {
+		case s.Mode == "sleep" || s.Mode == "block" || s.Mode == "ignore" || isTrap(s.Mode):
 			blocked = true
-		case "exitat":
+		case s.Mode == "exitat":
 			if start+int64(s.Ms)*msNs > until {
 				blocked = true
 			} else if start+int64(s.Ms)*msNs+250*msNs < ctxAt {
 				early = true
 			}
-		case "builtin":
+		case s.Mode == "builtin":
 			early = true
 		}
 		if s.Mode == "bgignore" {
@@ -319,17 +457,32 @@ func (rn *runner) evalDeadline(dl *DeadlineJob) ([]dlFinding, map[string]int) {
 		if s.Mode == "lateignore" {
 			// only the general oracles (done by the deadline + slack, no child left) and the verdict
 			counts["class:started-late"]++
-			msgB, _ := hex.DecodeString(rn.msgHex())
 			if !(o.Verdict == "FAIL" && strings.Contains(o.Log, string(msgB))) {
-				add("impl-violation", "deadline/verdict", fmt.Sprintf("script %s: two blocked commands under ContinueOnError were reported %s without the timed-out message", s.Name, o.Verdict), "", tail(o.Log, 300))
+				add("impl-violation", "deadline/verdict", fmt.Sprintf("%sscript %s: two blocked commands under ContinueOnError were reported %s without the timed-out message", where, s.Name, o.Verdict), "", tail(o.Log, 300))
 			}
 			continue
 		}
+		// did the command have its handler in place well before the context expired?  (a helper that is
+		// started late on a loaded machine dies of the signal's default action instead: still a blocked
+		// command, but it says nothing about the handling of the exit status)
+		ready, hasReady := hl["ready"]
+		handlerInPlace := hasReady && ready < ctxAt-20*msNs
 		switch {
 		case blocked:
 			counts["class:blocked"]++
+			if isTrap(s.Mode) && handlerInPlace {
+				counts["class:blocked-exits-on-interrupt:"+strings.TrimPrefix(s.Mode, "trapexit")]++
+			}
 			if !timedOut {
-				add("impl-violation", "deadline/verdict", fmt.Sprintf("script %s (%s, negated=%v) blocked past the deadline but was reported %s without the timed-out message", s.Name, s.Mode, s.Neg, o.Verdict), "FAIL + "+string(msg), o.Verdict+": "+tail(o.Log, 300))
+				how := s.Mode
+				if isTrap(s.Mode) {
+					st := strings.TrimPrefix(s.Mode, "trapexit")
+					if st == "" {
+						st = "3"
+					}
+					how = fmt.Sprintf("exits with status %s %d ms after the interrupt", st, s.Ms)
+				}
+				add("impl-violation", "deadline/verdict", fmt.Sprintf("%sscript %s (%s, negated=%v) was blocked in a foreground command until the context expired but was reported %s without the timed-out message", where, s.Name, how, s.Neg, o.Verdict), "FAIL + "+string(msg), o.Verdict+": "+tail(o.Log, 300))
 			}
 		case early:
 			counts["class:early"]++
@@ -338,15 +491,15 @@ func (rn *runner) evalDeadline(dl *DeadlineJob) ([]dlFinding, map[string]int) {
 				want = "FAIL" // "unexpected command success"
 			}
 			if o.Verdict != want || timedOut {
-				add("impl-violation", "deadline/early-affected", fmt.Sprintf("script %s finished %d ms before the context expired but was reported %s", s.Name, (ctxAt-start-int64(s.Ms)*msNs)/msNs, o.Verdict), want, o.Verdict+": "+tail(o.Log, 300))
+				add("impl-violation", "deadline/early-affected", fmt.Sprintf("%sscript %s finished %d ms before the context expired but was reported %s", where, s.Name, (ctxAt-start-int64(s.Ms)*msNs)/msNs, o.Verdict), want, o.Verdict+": "+tail(o.Log, 300))
 			}
 			if _, sig := hl["quit"]; sig {
-				add("impl-violation", "deadline/early-affected", "script "+s.Name+" finished early but its process received the interrupt", "", "")
+				add("impl-violation", "deadline/early-affected", where+"script "+s.Name+" finished early but its process received the interrupt", "", "")
 			}
 		default:
 			counts["class:borderline"]++
 			if !(o.Verdict == "PASS" && !s.Neg) && !timedOut && !(s.Neg && o.Verdict == "FAIL") {
-				add("impl-violation", "deadline/verdict", fmt.Sprintf("script %s exits at about the expiry of the context: verdict %s is neither pass nor the timed-out failure", s.Name, o.Verdict), "", tail(o.Log, 300))
+				add("impl-violation", "deadline/verdict", fmt.Sprintf("%sscript %s exits at about the expiry of the context: verdict %s is neither pass nor the timed-out failure", where, s.Name, o.Verdict), "", tail(o.Log, 300))
 			}
 		}
 		// interrupt about two grace periods before the deadline
@@ -354,50 +507,49 @@ func (rn *runner) evalDeadline(dl *DeadlineJob) ([]dlFinding, map[string]int) {
 			counts["timing:interrupt"]++
 			counts[lateBucket("interrupt-late", q-ctxAt)]++
 			if q < ctxAt-earlyTol || q > ctxAt+lateTol {
-				add("impl-violation", "deadline/interrupt-time", fmt.Sprintf("script %s: deadline %d ms, grace %d ms: interrupt expected at %d ms, received at %d ms", s.Name, dl.UntilMs, grace/msNs, ctxAt/msNs, q/msNs), "", "")
+				add("impl-violation", "deadline/interrupt-time", fmt.Sprintf("%sscript %s: deadline %d ms, grace %d ms: interrupt expected at %d ms, received at %d ms", where, s.Name, untilMs, grace/msNs, ctxAt/msNs, q/msNs), "", "")
 			}
 			lo, _ := strconv.ParseInt(mf["int"][0], 10, 64)
 			hi, _ := strconv.ParseInt(mf["int"][1], 10, 64)
 			if q < lo-earlyTol || q > hi+lateTol {
-				add("correspondence", "model/interrupt-window", fmt.Sprintf("script %s: interrupt at %d ms outside the model's window", s.Name, q/msNs), mf["int"][0]+".."+mf["int"][1], fmt.Sprint(q))
+				add("correspondence", "model/interrupt-window", fmt.Sprintf("%sscript %s: interrupt at %d ms outside the model's window", where, s.Name, q/msNs), mf["int"][0]+".."+mf["int"][1], fmt.Sprint(q))
 			}
-		} else if blocked && (s.Mode == "trapexit" || s.Mode == "ignore") {
-			add("impl-violation", "deadline/interrupt-time", "script "+s.Name+": the blocked process never received the interrupt", "", tail(o.Log, 300))
+		} else if blocked && (isTrap(s.Mode) || s.Mode == "ignore") && (handlerInPlace || !hasReady && start > 0 && start < ctxAt-150*msNs) {
+			add("impl-violation", "deadline/interrupt-time", where+"script "+s.Name+": the blocked process never received the interrupt", "", tail(o.Log, 300))
 		}
 		// kill one grace period later for a process that ignores the interrupt
 		if s.Mode == "ignore" {
 			counts["timing:kill"]++
 			counts[lateBucket("kill-late", end-killAt)]++
 			if end < killAt-earlyTol || end > killAt+lateTol+40*msNs {
-				add("impl-violation", "deadline/kill-time", fmt.Sprintf("script %s ignores the interrupt: deadline %d ms, grace %d ms: kill expected at %d ms, the command ended at %d ms", s.Name, dl.UntilMs, grace/msNs, killAt/msNs, end/msNs), "", "")
+				add("impl-violation", "deadline/kill-time", fmt.Sprintf("%sscript %s ignores the interrupt: deadline %d ms, grace %d ms: kill expected at %d ms, the command ended at %d ms", where, s.Name, untilMs, grace/msNs, killAt/msNs, end/msNs), "", "")
 			}
 			if q, ok := hl["quit"]; ok {
 				// is (interrupt at q, return at end) a run of the timed automaton with slack sigma?
 				counts["timed-automaton:asked"]++
 				if a := rn.ask(fmt.Sprintf("ta %d %d %d %d %d", ctxAt, grace, sigma, q, end)); !strings.HasPrefix(a, "accepted=1") {
-					add("correspondence", "model/timed-automaton", fmt.Sprintf("script %s: interrupt at %d ms and return at %d ms (context at %d ms, killDelay %d ms) is not a run of the timed automaton with slack %d ms", s.Name, q/msNs, end/msNs, ctxAt/msNs, grace/msNs, sigma/msNs), a, "")
+					add("correspondence", "model/timed-automaton", fmt.Sprintf("%sscript %s: interrupt at %d ms and return at %d ms (context at %d ms, killDelay %d ms) is not a run of the timed automaton with slack %d ms", where, s.Name, q/msNs, end/msNs, ctxAt/msNs, grace/msNs, sigma/msNs), a, "")
 				}
 			}
 			if q, ok := hl["quit"]; ok && end < q+grace-earlyTol {
-				add("impl-violation", "deadline/kill-time", fmt.Sprintf("script %s: killed %d ms after the interrupt, grace period %d ms", s.Name, (end-q)/msNs, grace/msNs), "", "")
+				add("impl-violation", "deadline/kill-time", fmt.Sprintf("%sscript %s: killed %d ms after the interrupt, grace period %d ms", where, s.Name, (end-q)/msNs, grace/msNs), "", "")
 			}
 		}
 		// the model: result kind and return window
 		if mf["res"][0] == mf["res"][1] && (blocked || early) {
 			wantTO := mf["verdict"][0] == "timed-out"
 			if wantTO != timedOut && mf["verdict"][0] == mf["verdict"][1] {
-				add("correspondence", "model/verdict", fmt.Sprintf("script %s (%s): model says %s", s.Name, s.Mode, mf["verdict"][0]), mf["verdict"][0], o.Verdict)
+				add("correspondence", "model/verdict", fmt.Sprintf("%sscript %s (%s): model says %s", where, s.Name, s.Mode, mf["verdict"][0]), mf["verdict"][0], o.Verdict)
 			}
-			if mf["ret"][0] != "-" && s.Mode != "builtin" {
+			if mf["ret"][0] != "-" && s.Mode != "builtin" && !(isTrap(s.Mode) && !handlerInPlace) {
 				lo, _ := strconv.ParseInt(mf["ret"][0], 10, 64)
 				hi, _ := strconv.ParseInt(mf["ret"][1], 10, 64)
 				if end < lo-earlyTol || end > hi+lateTol+40*msNs {
-					add("correspondence", "model/return-window", fmt.Sprintf("script %s (%s): command ended at %d ms, outside the model's window", s.Name, s.Mode, end/msNs), mf["ret"][0]+".."+mf["ret"][1], fmt.Sprint(end))
+					add("correspondence", "model/return-window", fmt.Sprintf("%sscript %s (%s): command ended at %d ms, outside the model's window", where, s.Name, s.Mode, end/msNs), mf["ret"][0]+".."+mf["ret"][1], fmt.Sprint(end))
 				}
 			}
 		}
 	}
-	return fs, counts
 }
 
 func lateBucket(name string, d int64) string {
@@ -427,6 +579,25 @@ func (rn *runner) msgHex() string {
 	return ""
 }
 
+// quickScripts: scripts that finish at once, for the calls of a history that are not measured.
+func quickScripts(r *common.RNG, prefix string) []DlScript {
+	n := 1 + r.Intn(3)
+	var out []DlScript
+	for i := 0; i < n; i++ {
+		s := DlScript{Name: fmt.Sprintf("%sq%d", prefix, i)}
+		if r.Chance(1, 3) {
+			s.Mode = "builtin"
+		} else {
+			s.Mode, s.Ms = "exitat", common.Pick(r, []int{0, 10, 30})
+			s.Neg = r.Chance(1, 6)
+		}
+		out = append(out, s)
+	}
+	return out
+}
+
+var trapModes = []string{"trapexit", "trapexit0", "trapexit0", "trapexit1", "trapexit2", "trapexit130"}
+
 func genDeadlineJob(r *common.RNG, id int) DeadlineJob {
 	until := common.Pick(r, []int{400, 600, 900, 1200, 1600, 2200, 3000})
 	dl := DeadlineJob{UntilMs: until, Par: 8, Procs: common.Pick(r, []int{2, 4, 8})}
@@ -438,13 +609,13 @@ func genDeadlineJob(r *common.RNG, id int) DeadlineJob {
 	n := 2 + r.Intn(3)
 	for i := 0; i < n; i++ {
 		s := DlScript{Name: fmt.Sprintf("j%ds%d", id, i)}
-		switch r.Intn(8) {
+		switch r.Intn(9) {
 		case 0:
 			s.Mode = "sleep"
 		case 1:
 			s.Mode = "block"
-		case 2:
-			s.Mode, s.Ms = "trapexit", common.Pick(r, []int{0, 20, grace / 3})
+		case 2, 8:
+			s.Mode, s.Ms = common.Pick(r, trapModes), common.Pick(r, []int{0, 20, grace / 3})
 		case 3:
 			s.Mode = "ignore"
 		case 4:
@@ -458,6 +629,15 @@ func genDeadlineJob(r *common.RNG, id int) DeadlineJob {
 		}
 		s.Neg = s.Mode != "builtin" && r.Chance(1, 4)
 		dl.Scripts = append(dl.Scripts, s)
+	}
+	// every third job: the process has made one or two RunT calls before, with other deadlines (or none)
+	if r.Chance(1, 3) {
+		np := 1 + r.Intn(2)
+		for k := 0; k < np; k++ {
+			pc := DlCall{UntilMs: common.Pick(r, []int{0, 3600000, 3600000, 600000, 60000, 5000, 800}), SeqT: r.Chance(1, 4)}
+			pc.Scripts = quickScripts(r, fmt.Sprintf("j%dp%d", id, k))
+			dl.Prior = append(dl.Prior, pc)
+		}
 	}
 	return dl
 }
@@ -510,7 +690,12 @@ func (rn *runner) oneDeadline(dl *DeadlineJob, tag string) {
 	var modes []string
 	for _, s := range dl.Scripts {
 		modes = append(modes, s.Mode)
-		rn.res.Case(fmt.Sprintf("%d/%s/%d/%v", dl.UntilMs, s.Mode, s.Ms, s.Neg), s.Mode != "builtin")
+		rn.res.Case(fmt.Sprintf("%d/%s/%d/%v/after%d", dl.UntilMs, s.Mode, s.Ms, s.Neg, len(dl.Prior)), s.Mode != "builtin")
+	}
+	for k, pc := range dl.Prior {
+		for _, s := range pc.Scripts {
+			rn.res.Case(fmt.Sprintf("%d/%s/%d/%v/call%d", pc.UntilMs, s.Mode, s.Ms, s.Neg, k), s.Mode != "builtin")
+		}
 	}
 	sort.Strings(modes)
 	if len(rn.res.Samples) < 6 {
@@ -601,7 +786,34 @@ func (rn *runner) mainC17() {
 			{Name: fmt.Sprintf("h%dnegblock", k), Mode: "block", Neg: true},
 			{Name: fmt.Sprintf("h%dbuiltin", k), Mode: "builtin"},
 		}}, "hand"})
+		// commands that handle the interrupt and exit by themselves, with every kind of exit status, at
+		// once or a little later: blocked until the context expired all the same
+		items = append(items, item{DeadlineJob{UntilMs: until, Par: 12, Procs: 4, Scripts: []DlScript{
+			{Name: fmt.Sprintf("g%dzero", k), Mode: "trapexit0"},
+			{Name: fmt.Sprintf("g%dzerolate", k), Mode: "trapexit0", Ms: grace / 3},
+			{Name: fmt.Sprintf("g%dzeroneg", k), Mode: "trapexit0", Ms: 5, Neg: true},
+			{Name: fmt.Sprintf("g%done", k), Mode: "trapexit1"},
+			{Name: fmt.Sprintf("g%dsig", k), Mode: "trapexit130", Ms: 20},
+			{Name: fmt.Sprintf("g%doneneg", k), Mode: "trapexit2", Neg: true},
+			{Name: fmt.Sprintf("g%dearly", k), Mode: "exitat", Ms: 10},
+		}}, "hand-exit-status"})
 	}
+	// histories: the process has called RunT before, with a very different deadline or with none; scripts
+	// that finish long before their own deadline pass, blocked ones are stopped at the times of THIS call
+	hour := 3600000
+	quick := func(p string) []DlScript {
+		return []DlScript{{Name: p + "a", Mode: "exitat", Ms: 20}, {Name: p + "b", Mode: "builtin"}, {Name: p + "c", Mode: "exitat", Ms: 0}}
+	}
+	items = append(items, item{DeadlineJob{Prior: []DlCall{{UntilMs: hour, Scripts: quick("ha0")}},
+		UntilMs: 5000, Par: 8, Procs: 4, Scripts: []DlScript{{Name: "ha1slow", Mode: "exitat", Ms: 300}, {Name: "ha1a", Mode: "exitat", Ms: 20}, {Name: "ha1b", Mode: "builtin"}}}, "hand-history"})
+	items = append(items, item{DeadlineJob{Prior: []DlCall{{UntilMs: 0, Scripts: quick("hb0")}},
+		UntilMs: 1200, Par: 8, Procs: 4, Scripts: []DlScript{{Name: "hb1sleep", Mode: "sleep"}, {Name: "hb1zero", Mode: "trapexit0", Ms: 10}, {Name: "hb1early", Mode: "exitat", Ms: 30}}}, "hand-history"})
+	items = append(items, item{DeadlineJob{Prior: []DlCall{{UntilMs: hour, Scripts: quick("hc0")}, {UntilMs: 0, Scripts: quick("hc1"), SeqT: true}},
+		UntilMs: 2400, Par: 8, Procs: 4, Scripts: []DlScript{{Name: "hc2sleep", Mode: "sleep"}, {Name: "hc2ignore", Mode: "ignore"}, {Name: "hc2trap", Mode: "trapexit", Ms: 10},
+			{Name: "hc2early", Mode: "exitat", Ms: 20}, {Name: "hc2edge", Mode: "exitat", Ms: 2400 - 240}}}, "hand-history"})
+	items = append(items, item{DeadlineJob{Prior: []DlCall{{UntilMs: 700, Scripts: quick("hd0")}, {UntilMs: 10 * 60000, Scripts: quick("hd1")}, {UntilMs: 3000, Scripts: quick("hd2")}},
+		UntilMs: 600, Par: 8, Procs: 4, Scripts: []DlScript{{Name: "hd3ignore", Mode: "ignore"}, {Name: "hd3block", Mode: "block", Neg: true}, {Name: "hd3early", Mode: "exitat", Ms: 20}}}, "hand-history"})
+
 	if os.Getenv("TSBATCH_BG_DEADLINE") == "1" {
 		// Observation outside C17 (not part of the check): a background command that ignores SIGINT
 		// and SIGQUIT is never killed (kill delay -1), run() waits for it for ever, also past the Deadline.
@@ -656,7 +868,7 @@ func (rn *runner) mainC17() {
 	}
 	close(ch)
 	wg.Wait()
-	res.Rule = fmt.Sprintf("two hand-written jobs (deadline 0.5 s and 2.4 s, one script per behaviour: /bin/sleep, exits on the interrupt, ignores it, finishes early, exits at the expiry of the context, negated blocking command, no subprocess) and %d generated jobs of 2-4 parallel scripts with deadlines 0.4-3 s; four jobs at a time; a finding is reported only when it shows in each of five attempts (timing tolerances: 40 ms early, 0.6 grace periods late); a sequential-T job; 3 (thorough: 12) rounds of 48 parallel commands exiting within +-2 ms of the context's expiry; a case is one script of one job, non-trivial when it runs a subprocess; distinct = distinct (deadline, behaviour, parameter, negation)", n)
+	res.Rule = fmt.Sprintf("two hand-written jobs (deadline 0.5 s and 2.4 s, one script per behaviour: /bin/sleep, exits on the interrupt, ignores it, finishes early, exits at the expiry of the context, negated blocking command, no subprocess), two jobs of commands that handle the interrupt and exit with status 0 / 1 / 2 / 130 at once or a little later (negated or not), four histories of 2-4 RunT calls made by one process with very different deadlines (an hour, ten minutes, none, seconds; quick scripts in the earlier calls, every behaviour in the last) and %d generated jobs of 2-4 parallel scripts with deadlines 0.4-3 s (every third after one or two earlier RunT calls); four jobs at a time; a finding is reported only when it shows in each of five attempts (timing tolerances: 40 ms early, 0.6 grace periods late); a sequential-T job; 3 (thorough: 12) rounds of 48 parallel commands exiting within +-2 ms of the context's expiry; a case is one script of one job, non-trivial when it runs a subprocess; distinct = distinct (deadline, behaviour, parameter, negation)", n)
 }
 
 // goTestDeadline: testscript.Run, the *testing.T entry point, in a real test binary started with
